@@ -83,7 +83,9 @@ RULE = ("stream scripts: first resourceVersion just below 10/100/1000 in 35 % of
         "histories: 2-7 insight revisions (30 % followed by running watchers exiting on their own) over 3 resources (2 namespaced, 1 cluster-scoped) × 4 namespaces, cluster-wide or "
         "namespaced mode; operator runs: namespace/CRD churn, rapid successions during a suspended pass, object deletions, stream "
         "breaks, and 'meta' runs that break/compact/410 the observers' own namespaces/CRD watch-streams with namespaces/CRDs created or "
-        "deleted inside the re-list gap and between the two start-up listings; a case is distinct by its abstracted (act, outputs) sequence and non-trivial when a fault, a pause "
+        "deleted inside the re-list gap and between the two start-up listings, and 'crdedit' runs that modify a CRD in place (version "
+        "added/removed, preferred version flipped, categories/short names changed) under handlers selecting by bare name, category and "
+        "short name; a case is distinct by its abstracted (act, outputs) sequence and non-trivial when a fault, a pause "
         "or a removal occurs")
 TRUSTED = ["harness/sim fake API (list/watch/replay/410 semantics, fault injection) and virtual-time loop",
            "harness/props/sim_c19.py observation points (api.request wrapper, watching.asyncio proxy, FakeContent.iter_chunked wrapper, ToggleSet subclass)",
@@ -827,8 +829,102 @@ def gen_meta(rng: random.Random, seed: int) -> dict:
             **({"rv0": rng.choice([0, 2, 88, 92, 988])} if rng.random() < 0.3 else {})}
 
 
+def gen_crdedit(rng: random.Random, seed: int) -> dict:
+    """CRDs modified IN PLACE at runtime — a version added (and the preferred version flipped), the preferred version
+    flipped back, a version removed, categories / short names added or removed — under handlers that select by bare
+    name, by category and by short name (no group, no version): what is served follows the CURRENT discovery."""
+    clusterwide = rng.random() < 0.4
+    plural = rng.choice(["kopfexamples", "kopfexamples", "widgets"])
+    selectors = []
+    if rng.random() < 0.6:
+        selectors.append({"by": "name", "value": plural})
+    if rng.random() < 0.5:
+        selectors.append({"by": "category", "value": "things"})
+    if rng.random() < 0.4 or not selectors:
+        selectors.append({"by": "shortcut", "value": "thg"})
+    tl: list[list] = [[0.5, "set_categories", plural, ["things"] if rng.random() < 0.7 else []],
+                      [0.75, "set_shortnames", plural, ["thg"] if rng.random() < 0.7 else []],
+                      [1.0, "create", plural, "team-a", "x"], [3.0, "check"]]
+    t = 4.0
+    has_v2 = False
+    for _ in range(rng.choice([1, 2, 2, 3])):
+        q = rng.random()
+        if q < 0.35 and not has_v2:
+            tl.append([t, "add_version", plural, "v2", rng.random() < 0.8])
+            has_v2 = True
+        elif q < 0.5 and has_v2:
+            tl.append([t, "set_preferred", plural, rng.choice(["v1", "v2"])])
+        elif q < 0.6 and has_v2:
+            tl.append([t, "del_version", plural, "v2"])
+            has_v2 = False
+        elif q < 0.8:
+            tl.append([t, "set_categories", plural, rng.choice([[], ["things"], ["other"]])])
+        else:
+            tl.append([t, "set_shortnames", plural, rng.choice([[], ["thg"], ["zzz"]])])
+        t += rng.choice([0.25, 2.0, 3.0])
+        if rng.random() < 0.6:
+            tl.append([t + 1.5, "check"])
+            t += 2.0
+    tl.append([t + 4.0, "check"])
+    return {"seed": seed, "crdedit": True, "clusterwide": clusterwide, "patterns": ["team-*"], "handlers": [],
+            "selectors": selectors, "initial_resources": [plural], "initial_namespaces": ["team-a", "team-b"],
+            "timeline": tl, "end": t + 6.0}
+
+
 SCOPE = {"kopfexamples": True, "widgets": True, "clusterthings": False}
 META_PLURALS = ("namespaces", "customresourcedefinitions")
+
+
+GVP = {"kopfexamples": ("kopf.dev", "v1"), "clusterthings": ("kopf.dev", "v1"), "widgets": ("example.org", "v1")}
+
+
+def served_from_discovery(sc: dict, discovery: list[dict]) -> list[tuple]:
+    """Which resources the operator must serve NOW, from the API server's discovery documents and the handlers'
+    selectors only (kopf's documented rules, written down independently of observation.py / references.py):
+    a selector without a version takes the group's preferred version only; a name matches plural / kind / singular /
+    short names; a category selects every resource carrying it; a SPECIFIC selector (anything but a category) that
+    matches several resources is ambiguous and those resources are not served at all (core-group resources win first);
+    a resource that cannot be listed and watched is not served."""
+    sels: list[dict] = [{"group": GVP[p][0], "version": GVP[p][1], "name": p} for p in sc["handlers"]]
+    for spec in sc.get("selectors", []):
+        sels.append({"group": None, "version": None,
+                     "name": spec["value"] if spec["by"] == "name" else None,
+                     "category": spec["value"] if spec["by"] == "category" else None,
+                     "shortcut": spec["value"] if spec["by"] == "shortcut" else None})
+    cand = [r for r in discovery if r["plural"] not in META_PLURALS]
+
+    def select(sel: dict) -> list[dict]:
+        out = []
+        for r in cand:
+            if sel.get("group") is not None and sel["group"] != r["group"]:
+                continue
+            if sel.get("version") is not None:
+                if sel["version"] != r["version"]:
+                    continue
+            elif not r["preferred"]:
+                continue
+            nm = sel.get("name")
+            if nm is not None and nm not in (r["plural"], r["kind"], r["singular"], *r["shortnames"]):
+                continue
+            if sel.get("category") is not None and sel["category"] not in r["categories"]:
+                continue
+            if sel.get("shortcut") is not None and sel["shortcut"] not in r["shortnames"]:
+                continue
+            out.append(r)
+        if sel.get("category") is None:      # specific
+            core = [r for r in out if r["group"] == ""]
+            out = core or out
+        return out
+
+    ident = lambda r: (r["group"], r["version"], r["plural"])  # noqa: E731
+    served = {ident(r): r for sel in sels for r in select(sel)}
+    for sel in sels:
+        if sel.get("category") is None:
+            picked = [r for r in select(sel) if ident(r) in served]
+            if len(picked) > 1:
+                for r in picked:
+                    served.pop(ident(r), None)
+    return sorted(k for k, r in served.items() if "list" in r["verbs"] and "watch" in r["verbs"])
 
 
 def _meta_gaps(sc: dict) -> dict:
@@ -877,7 +973,8 @@ def oracle_operator(sc: dict, r: dict) -> list[tuple[str, dict]]:
             fails.append((f"the operator is not running at t={c['t']}: {r.get('op_error')}",
                           {"site": "running.operator", "shape": "operator exited during namespace/CRD churn"}))
             break
-        served = [p for p in sc["handlers"] if p in c["resources"]]
+        served_gvp = served_from_discovery(sc, c["discovery"]) if "discovery" in c else None
+        served = sorted({g[2] for g in served_gvp}) if served_gvp is not None else [p for p in sc["handlers"] if p in c["resources"]]
         if sc.get("clusterwide", True):
             nss: list = [None]
         else:
@@ -885,6 +982,15 @@ def oracle_operator(sc: dict, r: dict) -> list[tuple[str, dict]]:
         want = sorted(((p, n if SCOPE[p] else None) for p in served for n in nss), key=str)
         want = sorted(set(want), key=str)
         got = sorted(((w[0], w[1]) for w in c["watches"] if w[0] not in ("namespaces", "customresourcedefinitions")), key=str)
+        if got == want and served_gvp is not None:
+            # the same clause per API VERSION of a resource: the current discovery decides which version is served
+            scope = {(r["group"], r["version"], r["plural"]): r["namespaced"] for r in c["discovery"]}
+            want_v = sorted({(g, v, p, n if scope[(g, v, p)] else None) for (g, v, p) in served_gvp for n in nss}, key=str)
+            got_v = sorted((tuple(w) for w in c["watches_v"] if w[2] not in META_PLURALS), key=str)
+            if got_v != want_v:
+                fails.append((f"t={c['t']}: open watches {got_v} != what the current discovery and the selectors serve {want_v}",
+                              {"site": "observation.revise_resources",
+                               "shape": "watched (group, version, plural, namespace) != served by the current discovery and selectors"}))
         if got != want:
             extra = [g for g in got if g not in want]
             missing = [w for w in want if w not in got]
@@ -916,7 +1022,8 @@ def oracle_operator(sc: dict, r: dict) -> list[tuple[str, dict]]:
     # every object of a served pair: its latest version reached a handler (the operator is still running)
     if r["checkpoints"] and r["checkpoints"][-1]["alive"]:
         last = r["checkpoints"][-1]
-        served = [p for p in sc["handlers"] if p in last["resources"]]
+        served = sorted({g[2] for g in served_from_discovery(sc, last["discovery"])}) if "discovery" in last else \
+            [p for p in sc["handlers"] if p in last["resources"]]
         if sc.get("clusterwide", True):
             ok_ns = None
         else:
@@ -965,7 +1072,8 @@ def eval_operator(sc: dict) -> dict:
     if "sim_error" in r:
         return {"sc": sc, "sim_error": r["sim_error"]}
     fails = oracle_operator(sc, r)
-    churn = [o[1] for o in sc["timeline"] if o[1] in ("add_ns", "del_ns", "add_res", "del_res")]
+    churn = [o[1] for o in sc["timeline"] if o[1] in ("add_ns", "del_ns", "add_res", "del_res", "add_version", "del_version",
+                                                       "set_preferred", "set_categories", "set_shortnames")]
     nsreq = nsimpl = None
     feed = r.get("ns_feed") or []
     if feed and feed[0]["kind"] == "listing0" and not sc.get("clusterwide", True):
@@ -1092,7 +1200,7 @@ def absorb(ctx: Ctx, res: dict, source: str, pending: dict) -> None:
                  sample={"scenario": case, "checkpoints": res["shape"]} if res["churn"] else None)
         for c in res["churn"]:
             ctx.count("operator_churn", c)
-        ctx.count("operator_runs", "rapid" if case.get("rapid") else "meta" if case.get("meta") else "churn")
+        ctx.count("operator_runs", "rapid" if case.get("rapid") else "meta" if case.get("meta") else "crdedit" if case.get("crdedit") else "churn")
         if res.get("orchreq") is not None:
             pending["reqs"].append(res["orchreq"])
             pending["impl"].append({"enabled": True, "keys_after_each_pass": res["orchimpl"]})
@@ -1163,6 +1271,11 @@ def run(ctx: Ctx) -> None:
         items.append(("operator", gen_rapid(rng, base + i)))
         sources.append("generated")
     ctx.count("cases", "operator-rapid", n_rapid)
+    n_crd = ctx.budget(40, 800)
+    for i in range(n_crd):
+        items.append(("operator", gen_crdedit(rng, base + i)))
+        sources.append("generated")
+    ctx.count("cases", "operator-crdedit", n_crd)
     n_meta = ctx.budget(60, 1500)
     for i in range(n_meta):
         items.append(("operator", gen_meta(rng, base + i)))
